@@ -51,3 +51,9 @@ Theorem C16_rendering_does_not_change_the_state :
   forall rs s o, fst (exec_op rs s (OSql o)) = s /\ fst (exec_op rs s (ODbml o)) = s.
 Proof. intros rs s o. cbn. destruct (slot s o); split; reflexivity. Qed.
 Print Assumptions C16_rendering_does_not_change_the_state.
+
+(* the DBML renderer of a sticky note is regenerated from its source text on every run *)
+From PyDBML Require Import GenFns GenFnTie.
+Theorem C16_sticky_note_renderer_regenerated_from_source : forall s, gen_render_sticky_note_dbml s = dbml_sticky s.
+Proof. exact gen_render_sticky_note_dbml_is_model. Qed.
+Print Assumptions C16_sticky_note_renderer_regenerated_from_source.
